@@ -32,7 +32,7 @@ CASE_TIMEOUT = 120
 def shards(tier, seed):
     out = []
     for sh in fam.game_shards('quick', seed):
-        if sh['fam'] in ('A3', 'B6'):
+        if sh['fam'] in ('A3', 'B6', 'B7'):
             continue
         if sh['backend'] == 'autoref' and tier != 'thorough':
             continue
